@@ -38,6 +38,9 @@ let fbits s = f_of_bits (z_of_int (int_of_string s))
 let bits_of f = int_of_z (f_to_bits f)
 
 let sym_of = function 'A' -> 0 | 'C' -> 1 | 'T' -> 2 | 'G' -> 3 | _ -> 4
+(* Protein: AminoAcid discriminants (abc.rs), X = 20 is the wildcard / default symbol *)
+let psyms = "ACDEFGHIKLMNPQRSTVWYX"
+let psym_of c = match String.index_opt psyms c with Some i -> i | None -> 20
 
 (* junk in the alignment padding of the discrete matrix rows (27 bytes per row) *)
 let pads i = List.init 27 (fun k -> z_of_int ((200 + 7 * int_of_nat i + k) land 255))
@@ -78,10 +81,13 @@ let () =
         (try
           let mat = List.map (fun r -> List.map fbits (split ',' r)) (split '/' (get "mat")) in
           let m = List.length mat in
-          let seq = if get "seq" = "-" then [] else List.init (String.length (get "seq")) (fun i -> sym_of (get "seq").[i]) in
+          let protein = (try get "alpha" = "P" with Not_found -> false) in
+          let kk = if protein then 21 else 5 in
+          let seq = if get "seq" = "-" then [] else
+              List.init (String.length (get "seq")) (fun i -> (if protein then psym_of else sym_of) (get "seq").[i]) in
           let l = List.length seq in
-          let k5 = nat_of_int 5 in
-          let in_theorem = List.for_all (fun r -> List.for_all f_is_finite (List.filteri (fun j _ -> j < 4) r)) mat in
+          let k5 = nat_of_int kk in
+          let in_theorem = List.for_all (fun r -> List.for_all f_is_finite (List.filteri (fun j _ -> j < kk - 1) r)) mat in
           (match f_to_discrete k5 mat, oget "disc" with
            | Panic _, "P" -> ()
            | Panic _, _ -> set_df "model-panics-implementation-does-not"
@@ -115,40 +121,75 @@ let () =
                cmp "ss" (jn (List.map (fun x -> string_of_int (int_of_z (f_scale_with ifac ioff x))) ireals));
                let idd = (try List.map (fun r -> List.map (fun x -> z_of_int (int_of_string x)) (split ',' r)) (split '/' (oget "d")) with _ -> dd) in
                cmp "ds" (jn (List.map (fun i -> match disc_score idd ss (nat_of_int i) with Ok b -> string_of_int (int_of_z b) | _ -> "P") positions));
-               (* u8 kernels, on the implementation's discrete cells *)
-               let full =
-                 let memo = Hashtbl.create 3 in
-                 fun a -> (match Hashtbl.find_opt memo a with
-                           | Some v -> v
-                           | None -> let v = show_scores (score_u8 a idd pads ss) in Hashtbl.add memo a v; v) in
+               (* u8 kernels, on the implementation's discrete cells: the kernels, wrappers and tables GENERATED
+                  from the source (GenDiscU8.v) -- Score<u8> of the static pipelines (gen_pipeline_u8) and the
+                  arms of the dispatcher as compiled on x86 hosts (gen_dispatch_u8_x86) *)
+               let c32 = nat_of_int 32 and c16 = nat_of_int 16 in
+               let ss16 = striped k5 c16 (configure_wrap_of (nat_of_int m)) (List.map nat_of_int seq) in
+               let nrows sx = nat_of_int (List.length sx.ss_rows - int_of_nat sx.ss_wrap) in
+               (* every (kernel, columns, row range) is evaluated once.  The generic kernel model indexes lists
+                  (quadratic in the motif width): for DNA motifs wider than 64 rows on a configured sequence its
+                  result is computed with the lane kernel that is PROVED equal to it for every row range
+                  (C08_generic_eq_avx2 / C08_avx2_source_is_model at 32 columns, C08_neon_eq_generic at 16). *)
+               let memo = Hashtbl.create 8 in
+               let run_s id c sx lo hi =
+                 let fast = (not protein) && m > 64 && id = UKGeneric in
+                 let id' = if fast then (if int_of_nat c = 32 then UKAvx2Shuffle else UKNeon) else id in
+                 let key = (id', int_of_nat c, int_of_nat lo, int_of_nat hi) in
+                 match Hashtbl.find_opt memo key with
+                 | Some v -> v
+                 | None ->
+                     let v = show_scores (run_u8_kernel gen_avx2_u8 gen_neon_u8 id' c idd pads sx lo hi) in
+                     Hashtbl.add memo key v; v in
+               let full id c sx = run_s id c sx O (nrows sx) in
                let sub = List.map int_of_string (split ':' (get "sub")) in
-               let part a = show_scores (score_rows_dispatch a idd pads ss (nat_of_int (List.nth sub 0)) (nat_of_int (List.nth sub 1))) in
+               let part a = run_s (gen_dispatch_u8_x86 a) c32 ss (nat_of_int (List.nth sub 0)) (nat_of_int (List.nth sub 1)) in
                let cmpk key model = if oget key <> "U" then cmp key model in
-               cmpk "gen" (full AGeneric);
-               cmpk "avx" (full AAvx2);
-               cmpk "dG" (full AGeneric);
-               cmpk "dS" (full ASse2);
-               cmpk "dA" (full AAvx2);
-               cmpk "sG" (part AGeneric);
-               cmpk "sA" (part AAvx2);
+               let model_gen = full (gen_pipeline_u8 D4Generic) c32 ss in
+               cmpk "gen" model_gen;
+               cmpk "sse" (full (gen_pipeline_u8 D4Sse2) c32 ss);
+               cmpk "g16" (full (gen_pipeline_u8 D4Generic) c16 ss16);
+               cmpk "s16" (full (gen_pipeline_u8 D4Sse2) c16 ss16);
+               if not protein then begin
+                 cmpk "avx" (full (gen_pipeline_u8 D4Avx2) c32 ss);
+                 cmpk "dG" (full (gen_dispatch_u8_x86 D4Generic) c32 ss);
+                 cmpk "dS" (full (gen_dispatch_u8_x86 D4Sse2) c32 ss);
+                 cmpk "dA" (full (gen_dispatch_u8_x86 D4Avx2) c32 ss);
+                 cmpk "sG" (part D4Generic);
+                 cmpk "sA" (part D4Avx2);
+                 (* the NEON kernel as translated from neon.rs (never compiled on this host) against the generic
+                    model, on a sequence configured for the motif: 32 and 16 columns *)
+                 if m > 0 then begin
+                   let neon c sx = full (gen_pipeline_u8 D4Neon) c sx in
+                   if neon c32 ss <> model_gen then
+                     set_pf "backend-mismatch neon-model (kernel translated from neon.rs) differs from generic, 32 columns";
+                   if neon c16 ss16 <> full (gen_pipeline_u8 D4Generic) c16 ss16 then
+                     set_pf "backend-mismatch neon-model (kernel translated from neon.rs) differs from generic, 16 columns"
+                 end
+               end;
                (* all arms agree (an arm may panic only where the model says so: empty motif on AVX2) *)
                let ref_full = oget "gen" and ref_part = oget "sG" in
                List.iter (fun key ->
                    let v = oget key in
-                   if v <> "U" && v <> "P" && ref_full <> "P" && v <> ref_full then
+                   if v <> "?" && v <> "U" && v <> "P" && ref_full <> "P" && v <> ref_full then
                      set_pf (Printf.sprintf "backend-mismatch %s differs from generic" key)
                    else if v = "P" && ref_full <> "P" && m > 0 then
                      set_pf (Printf.sprintf "backend-mismatch %s panicked, generic did not" key))
-                 ["avx"; "dG"; "dS"; "dA"];
+                 ["avx"; "dG"; "dS"; "dA"; "sse"];
+               (let v = oget "s16" and r = oget "g16" in
+                if v <> "?" && v <> "U" && v <> "P" && r <> "P" && v <> r then
+                  set_pf "backend-mismatch s16 differs from generic (16 columns)");
                (let v = oget "sA" in
-                if v <> "U" && v <> "P" && ref_part <> "P" && v <> ref_part then
+                if v <> "?" && v <> "U" && v <> "P" && ref_part <> "P" && v <> ref_part then
                   set_pf "backend-mismatch sA differs from generic");
                (* the property on the implementation's numbers *)
                let u8s_of key =
                  if key = "ds" then (try Some (List.map int_of_string (split ',' (oget "ds"))) with _ -> None)
-                 else match parse_scores (oget key) with
+                 else
+                   let cols = if key = "g16" || key = "s16" then 16 else 32 in
+                   match parse_scores (oget key) with
                    | Some (rows, _, cells) when rows > 0 ->
-                       (try Some (List.map (fun i -> cells.((i mod rows) * 32 + i / rows)) positions) with _ -> None)
+                       (try Some (List.map (fun i -> cells.((i mod rows) * cols + i / rows)) positions) with _ -> None)
                    | _ -> None in
                (* byte sources; a source whose byte scores equal those of an earlier source is checked once *)
                let sources =
@@ -157,7 +198,7 @@ let () =
                      match u8s_of key with
                      | None -> false
                      | Some u -> if List.mem u !seen then false else (seen := u :: !seen; true))
-                   ["ds"; "gen"; "avx"; "dG"; "dS"; "dA"] in
+                   ["ds"; "gen"; "avx"; "dG"; "dS"; "dA"; "sse"; "g16"; "s16"] in
                let tag () = if well_conditioned mat ifac then "" else "ill-conditioned " in
                if in_theorem && List.length ireals = npos then begin
                  (* (a) scale recomputed by the model from the observed factor / offset *)
